@@ -17,6 +17,17 @@ if TYPE_CHECKING:
     )
 
 
+def _exp(exponent: float) -> float:
+    """
+    Exponential that saturates to infinity instead of raising for arbitrarily
+    favourable trials (math.exp overflows above ~709.78).
+    """
+    try:
+        return math.exp(exponent)
+    except OverflowError:
+        return math.inf
+
+
 class BaseCriteria(ABC):
     """
     Base class for acceptance criteria, it defines the interface for acceptance criteria
@@ -105,7 +116,7 @@ class CanonicalCriteria(BaseCriteria):
             context.atoms.get_potential_energy() - context.last_potential_energy
         )
 
-        return context.rng.random() < math.exp(
+        return context.rng.random() < _exp(
             -energy_difference / (context.temperature * kB)
         )
 
@@ -135,7 +146,7 @@ class HamiltonianCanonicalCriteria(BaseCriteria):
             - context.last_kinetic_energy
         )
 
-        return context.rng.random() < math.exp(
+        return context.rng.random() < _exp(
             -energy_difference / (context.temperature * kB)
         )
 
@@ -165,7 +176,7 @@ class IsobaricCriteria(BaseCriteria):
         current_volume = atoms.get_volume()
         old_volume = context.last_cell.volume
 
-        return context.rng.random() < math.exp(
+        return context.rng.random() < _exp(
             -(energy_difference + context.pressure * (current_volume - old_volume))
             / temperature
             + (len(atoms) + 1) * np.log(current_volume / old_volume)
@@ -213,7 +224,7 @@ class IsotensionCriteria(BaseCriteria):
             (context.external_stress - context.pressure) @ self.strain_tensor
         )
 
-        return context.rng.random() < math.exp(
+        return context.rng.random() < _exp(
             -(energy_difference + elastic_energy) / temperature
             + (len(atoms) + 1) * np.log(atoms.get_volume() / context.last_cell.volume)
         )
@@ -274,5 +285,5 @@ class GrandCanonicalCriteria(BaseCriteria):
             particle_delta * context.chemical_potential - energy_difference
         ) / (context.temperature * kB)
 
-        criteria = math.exp(exponential)
+        criteria = _exp(exponential)
         return context.rng.random() < criteria * prefactor
